@@ -5,7 +5,7 @@
  "enforce": ["libcperciva_SHA256_Update"],
  "replace": ["SHA256_Update_internal"],
  "annotate": ["alg/sha256.c", "util/insecure_memzero.c"],
- "defines": ["VERIF_HALLOC", "SHA_MAXOBJ=130"],
+ "defines": ["VERIF_HALLOC", "SHA_MAXOBJ=0xffffffff"],
  "loop_contracts": false,
  "timeout": 300,
  "assumptions": ["insecure_memzero_ptr == insecure_memzero_func (its static initialiser; no library code assigns it)"]
